@@ -72,6 +72,28 @@ func main() {
 			}
 		}
 		fmt.Println("obligations", len(s.Obs), "bad", n, time.Since(t0))
+	case "m2":
+		rules.M2(rc, nil, 0, 0)
+		n := 0
+		seen := map[string]int{}
+		keys := map[string][]string{}
+		for _, o := range s.Obs {
+			if o.Verdict != core.OK {
+				n++
+				seen[o.Rule+" "+o.V+": "+o.Sig+o.Detail[:0]]++
+				keys[o.Rule+" "+o.V+": "+o.Sig] = append(keys[o.Rule+" "+o.V+": "+o.Sig], o.Key)
+				if len(os.Args) > 2 && strings.Contains(o.Key, os.Args[2]) {
+					fmt.Println(o.V, o.Rule, o.Key, o.Detail)
+				}
+			}
+		}
+		for k, v := range seen {
+			fmt.Println(v, k)
+			for _, kk := range keys[k] {
+				fmt.Println("      ", kk)
+			}
+		}
+		fmt.Println("obligations", len(s.Obs), "bad", n, s.Analysed, time.Since(t0))
 	case "k8":
 		rules.K8(rc, 0)
 		for _, o := range s.Obs {
